@@ -67,23 +67,30 @@ def _combine(op, a, b):
     return a ^ b
 
 
-def body_history(case):
-    kc, probes, prog = case
-    out = Outcome()
-    ns = build.ns()
-    pool = []  # (term, obj)
-    used_as_operand = set()
-    null_with_comb = False
-    refiltered_operand = False
-    out.evals = 0
+class Hist:
+    """Interpreter of a C02 history: one step at a time, all invariants after every step.
+    Used by the program-as-data test (body_history) and by the Hypothesis state machine."""
 
+    def __init__(self, kc, probes):
+        self.kc, self.probes = kc, probes
+        self.out = Outcome()
+        self.out.evals = 0
+        self.ns = build.ns()
+        self.pool = []  # (term, obj)
+        self.used_as_operand = set()
+        self.null_with_comb = False
+        self.refiltered_operand = False
+        self.prog = []
+        self.dead = False
+
+    @staticmethod
     def is_comb(t):
         return isinstance(simp(t), Op)
 
-    def check_all(step_i, step, before_fp, n_before):
-        nonlocal refiltered_operand
+    def check_all(self, step_i, step, before_fp, n_before):
+        out, pool = self.out, self.pool
         for idx, (t, o) in enumerate(pool):
-            for pd in probes:
+            for pd in self.probes:
                 exp = model.ref_filter(t, pd)
                 out.evals += 1
                 try:
@@ -96,8 +103,8 @@ def body_history(case):
                     out.add("boolean-algebra", f"boolean-algebra|{step[0]}|{which}",
                             f"step {step_i} {step!r}: member {idx} {show(t,200)} on {show(pd,120)}: got {got} expected {exp}")
                     return False
-            if idx in used_as_operand:
-                refiltered_operand = True
+            if idx in self.used_as_operand:
+                self.refiltered_operand = True
         if before_fp is not None:
             after = fingerprint(*[o for _, o in pool[:n_before]])
             if after != before_fp:
@@ -106,9 +113,16 @@ def body_history(case):
                 return False
         return True
 
-    for i, step in enumerate(prog):
+    def step(self, step):
+        """-> False when the history must stop (a violation was recorded)."""
+        if self.dead:
+            return False
+        out, pool, ns = self.out, self.pool, self.ns
+        i = len(self.prog)
+        self.prog.append(step)
         n_before = len(pool)
         before = fingerprint(*[o for _, o in pool])
+        is_comb = self.is_comb
         try:
             if step[0] == "leaf":
                 pool.append((step[1], build.build_leaf(step[1])))
@@ -118,9 +132,9 @@ def body_history(case):
                 _, a, b, op = step
                 (ta, oa), (tb, ob) = pool[a], pool[b]
                 pool.append((Op(op, ta, tb), _combine(op, oa, ob)))
-                used_as_operand.update((a, b))
+                self.used_as_operand.update((a, b))
                 if (isinstance(simp(ta), Null) and is_comb(tb)) or (isinstance(simp(tb), Null) and is_comb(ta)):
-                    null_with_comb = True
+                    self.null_with_comb = True
             elif step[0] == "combine_null":
                 _, a, side, op = step
                 ta, oa = pool[a]
@@ -129,9 +143,9 @@ def body_history(case):
                     pool.append((Op(op, Null(), ta), _combine(op, nul, oa)))
                 else:
                     pool.append((Op(op, ta, Null()), _combine(op, oa, nul)))
-                used_as_operand.add(a)
+                self.used_as_operand.add(a)
                 if is_comb(ta):
-                    null_with_comb = True
+                    self.null_with_comb = True
             elif step[0] == "same_op_null":
                 _, a, b, op, op2, side = step
                 (ta, oa), (tb, ob) = pool[a], pool[b]
@@ -143,9 +157,9 @@ def body_history(case):
                     pool.append((Op(outer, Null(), inner_t), _combine(outer, nul, inner_o)))
                 else:
                     pool.append((Op(outer, inner_t, Null()), _combine(outer, inner_o, nul)))
-                used_as_operand.update((a, b, len(pool) - 2))
+                self.used_as_operand.update((a, b, len(pool) - 2))
                 if is_comb(inner_t):
-                    null_with_comb = True
+                    self.null_with_comb = True
                 out.label(f"same-op-null:{op}:{'same' if outer == op else 'diff'}:{side}")
             elif step[0] == "spec":
                 _, op, idxs, nest = step
@@ -164,24 +178,117 @@ def body_history(case):
                 (ta, oa), (tb, ob), (tc, oc) = pool[a], pool[b], pool[c]
                 pool.append((Op(op1, ta, tb), _combine(op1, oa, ob)))
                 pool.append((Op(op2, ta, tc), _combine(op2, oa, oc)))
-                used_as_operand.update((a, b, c))
+                self.used_as_operand.update((a, b, c))
         except TypeError as e:
             if "Cannot combine `Key` and `Index`" in str(e):
-                continue  # cannot happen within one kind class; by-design rejection
+                return True  # cannot happen within one kind class; by-design rejection
             out.exc(f"build-{step[0]}", e)
-            break
+            self.dead = True
+            return False
         except Exception as e:
             out.exc(f"build-{step[0]}", e)
+            self.dead = True
+            return False
+        if not self.check_all(i, step, before, n_before):
+            self.dead = True
+            return False
+        return True
+
+    def finish(self):
+        out = self.out
+        out.nontrivial = self.null_with_comb and self.refiltered_operand
+        if self.null_with_comb:
+            out.label("null-with-combination")
+        if self.refiltered_operand:
+            out.label("operand-refiltered")
+        out.sample = f"{self.kc} probes={show(self.probes,150)} program={show(self.prog,500)}"
+        return out
+
+
+def body_history(case):
+    kc, probes, prog = case
+    h = Hist(kc, probes)
+    for step in prog:
+        if not h.step(step):
             break
-        if not check_all(i, step, before, n_before):
-            break
-    out.nontrivial = null_with_comb and refiltered_operand
-    if null_with_comb:
-        out.label("null-with-combination")
-    if refiltered_operand:
-        out.label("operand-refiltered")
-    out.sample = f"{kc} probes={show(probes,150)} program={show(prog,500)}"
-    return out
+    return h.finish()
+
+
+def machine_history(seed, n, record):
+    """The same histories driven by a Hypothesis RuleBasedStateMachine: every rule draws the
+    arguments of ONE operation (pool indices, operators, a leaf decoded from a small tape),
+    executes it through the interpreter above, and the invariants run after every step.
+    The executed program is recorded as a case of the `history` test, so that a violation
+    found here replays (and shrinks) through the program-as-data body."""
+    import hypothesis
+    from hypothesis import strategies as st
+    from hypothesis.stateful import RuleBasedStateMachine, rule, initialize, precondition, run_state_machine_as_test
+    from ..runner import hyp_settings
+
+    tape = st.binary(min_size=96, max_size=96)
+    idx = st.integers(0, 255)
+    ops = st.sampled_from(OPS)
+    side = st.sampled_from(["l", "r"])
+
+    class M(RuleBasedStateMachine):
+        def __init__(self):
+            super().__init__()
+            self.h = None
+
+        @initialize(kc=st.sampled_from(["map", "list"]), t=st.binary(min_size=384, max_size=384))
+        def setup(self, kc, t):
+            r = G.R(t)
+            mk = G.map_doc if kc == "map" else G.list_doc
+            self.kinds = ("value", "key") if kc == "map" else ("value", "index")
+            self.h = Hist(kc, [mk(r, 2) for _ in range(3)])
+
+        def size(self):
+            return len(self.h.pool)
+
+        @rule(t=tape)
+        def add_leaf(self, t):
+            self.h.step(("leaf", G.leaf(G.R(t), self.kinds, "typed", meaningful=True)))
+
+        @rule()
+        def add_null(self):
+            self.h.step(("null",))
+
+        @precondition(lambda self: self.h is not None and len(self.h.pool) >= 2)
+        @rule(a=idx, b=idx, op=ops)
+        def combine(self, a, b, op):
+            n = self.size()
+            self.h.step(("combine", a % n, b % n, op))
+
+        @precondition(lambda self: self.h is not None and len(self.h.pool) >= 1)
+        @rule(a=idx, s=side, op=ops)
+        def combine_null(self, a, s, op):
+            self.h.step(("combine_null", a % self.size(), s, op))
+
+        @precondition(lambda self: self.h is not None and len(self.h.pool) >= 2)
+        @rule(a=idx, b=idx, op=ops, op2=st.one_of(st.none(), ops), s=side)
+        def same_op_null(self, a, b, op, op2, s):
+            n = self.size()
+            self.h.step(("same_op_null", a % n, b % n, op, op2, s))
+
+        @precondition(lambda self: self.h is not None and len(self.h.pool) >= 1)
+        @rule(op=ops, idxs=st.lists(idx, max_size=4), nest=st.booleans())
+        def from_spec_list(self, op, idxs, nest):
+            n = self.size()
+            self.h.step(("spec", op, [i % n for i in idxs], nest))
+
+        @precondition(lambda self: self.h is not None and len(self.h.pool) >= 2)
+        @rule(a=idx, b=idx, c=idx, op1=ops, op2=ops)
+        def reuse(self, a, b, c, op1, op2):
+            n = self.size()
+            self.h.step(("reuse", a % n, b % n, c % n, op1, op2))
+
+        def teardown(self):
+            if self.h is not None:
+                record((self.h.kc, self.h.probes, list(self.h.prog)), self.h.finish())
+
+    import hypothesis as hy
+    settings = hy.settings(hyp_settings(n), stateful_step_count=25)
+    run_state_machine_as_test(hy.seed(seed)(M), settings=settings)
 
 
 def gen_tree(r):
@@ -217,6 +324,21 @@ def body_tree(case):
             out.add("boolean-algebra", "boolean-algebra|tree|" + ("spec" if via_spec else "dsl"),
                     f"{show(t,300)} on {show(pd,150)}: got {got} expected {exp}")
             return out
+        # the other entry points of a combination: wrapped data, Data.filter, test_all, test
+        try:
+            D = ns.da.Data(pd)
+            alt = {"filter(Data)": o.filter(D).result, "Data.filter": ns.da.Data(pd).filter(o).result}
+            ta = o.test_all(pd)
+        except Exception as e:
+            out.exc("entry-points-tree", e)
+            return out
+        for nm, r_ in alt.items():
+            if r_ != exp:
+                out.add("boolean-algebra", f"boolean-algebra|tree|{nm}", f"{nm}: {show(t,300)} on {show(pd,150)}: got {r_} expected {exp}")
+                return out
+        if ta is not all(exp):
+            out.add("boolean-algebra", "boolean-algebra|tree|test_all", f"test_all={ta!r} expected {all(exp)} for {show(t,300)} on {show(pd,150)}")
+            return out
         mixed = mixed or (any(exp) and not all(exp))
     # the same tree judged through a rule over a bare fan-out part: there the items carry
     # their concrete paths while they are filtered
@@ -251,5 +373,6 @@ def body_tree(case):
 def tests(tier):
     return [
         TestSpec("history", gen_history, body_history, {"quick": 400, "thorough": 40000}, tape=1024, fuzz={"thorough": 40000}),
+        TestSpec("history-machine", gen_history, body_history, {"quick": 120, "thorough": 8000}, tape=1024, machine=machine_history),
         TestSpec("tree", gen_tree, body_tree, {"quick": 3000, "thorough": 400000}, tape=768, fuzz={"thorough": 40000}),
     ]
